@@ -3,6 +3,23 @@ TRUST = ("trusted: CPython ast; the checker's own engines; for table rules the i
          "against the real loaders at development time). Known findings are listed in KNOWN_FINDINGS.txt. ")
 
 META = {
+    "C16": {
+        "engine": "sa: pairing/symmetry analysis, guard engine (orderings), constant scan, opaque-use analysis, reachability formulas",
+        "technique": "structural conservation argument for PEOE: symmetric adjacency + read-then-write phases + "
+                     "antisymmetry of the transfer term under the atom swap (decided over the orderings of the two "
+                     "electronegativities) + injection/scale pairing; positive-constant scan and lookup-order extraction "
+                     "for radii; opaque-use classification of name reads; guard formula of the transfer block",
+        "text": "shows that equilibration can only redistribute charge: every bond enters both atoms' adjacency in one "
+                "block; within a cycle all charges are read before any is written; the per-bond transfer is antisymmetric "
+                "(chi difference negates, the same physical atom's normaliser is selected for both orderings, damping is "
+                "atom independent); the scaled formal charge injected over range(num_cycles) in shares of 1/num_cycles is "
+                "multiplied back by the same factor. Every RADII value is positive, lookup is type-then-element within "
+                "primary-then-secondary and raises on a miss. Atom names are used only as keys/equality/messages in the "
+                "charge slice. Transfer excludes polymer atoms and waters, copies the unmodified MOL2 values; transfer to "
+                "OTHER hetero groups by name is a listed known finding. Numeric values and float summation order are not "
+                "decided.",
+        "note": TRUST,
+    },
     "C03": {
         "engine": "sa: dataflow/guard engine, family-wise pairing, deletion-site classification, table model",
         "technique": "exact hit/miss partition by enumeration of all truth assignments; def-use of the printed and returned "
